@@ -452,12 +452,12 @@ func c08NewModel(env *c08Env, nnodes, npods int) *c08Model {
 		m.nodes = append(m.nodes, fmt.Sprintf("node-%d", i))
 	}
 	for i := 0; i < npods; i++ {
-		m.pods = append(m.pods, &c08Pod{slot: i, ns: kit0Namespace(i), name: fmt.Sprintf("pod-%d", i)})
+		m.pods = append(m.pods, &c08Pod{slot: i, ns: c08Namespace(i), name: fmt.Sprintf("pod-%d", i)})
 	}
 	return m
 }
 
-func kit0Namespace(i int) string {
+func c08Namespace(i int) string {
 	if i%3 == 2 {
 		return "kube-system"
 	}
@@ -681,23 +681,37 @@ func c08GenUsageList(r *kit.Rand, env *c08Env, cpuMax, memMax int64) corev1.Reso
 	return list
 }
 
-// c08GenMetric generates a NodeMetric object for node. updateTime is chosen by the caller (zero =
-// pick one around the boundaries given by the hints).
-func c08GenMetric(r *kit.Rand, env *c08Env, node string, ver int, now time.Time, hints []c08Hint, updateTime time.Time, forceFull bool) *slov1alpha1.NodeMetric {
+type c08MetricOpt struct {
+	updateTime time.Time // zero = pick one on/around the boundaries given by the hints
+	forceFull  bool      // never generate the empty status
+	interval   *int64    // report interval in seconds; nil = choose (incl. "not set" = default 60s)
+}
+
+// c08GenInterval picks a report interval: 0 = leave the collect policy unset (default 60s).
+func c08GenInterval(r *kit.Rand) int64 {
+	return kit.Pick(r, []int64{0, 0, 20, 60, 60, 180, 600})
+}
+
+// c08GenMetric generates a NodeMetric object for node.
+func c08GenMetric(r *kit.Rand, env *c08Env, node string, ver int, now time.Time, hints []c08Hint, opt c08MetricOpt) *slov1alpha1.NodeMetric {
 	nm := &slov1alpha1.NodeMetric{ObjectMeta: metav1.ObjectMeta{Name: node, ResourceVersion: fmt.Sprint(ver)}}
-	var interval = DefaultNodeMetricReportInterval
-	if r.Pct(75) {
-		s := kit.Pick(r, []int64{20, 60, 60, 180, 600})
-		nm.Spec.CollectPolicy = &slov1alpha1.NodeMetricCollectPolicy{ReportIntervalSeconds: ptr.To(s)}
-		interval = time.Duration(s) * time.Second
+	var interval = 60 * time.Second
+	ivs := c08GenInterval(r)
+	if opt.interval != nil {
+		ivs = *opt.interval
+	}
+	if ivs > 0 {
+		nm.Spec.CollectPolicy = &slov1alpha1.NodeMetricCollectPolicy{ReportIntervalSeconds: ptr.To(ivs)}
+		interval = time.Duration(ivs) * time.Second
 	} else if r.Bool() {
 		nm.Spec.CollectPolicy = &slov1alpha1.NodeMetricCollectPolicy{}
 	}
-	if !forceFull && r.Pct(8) {
+	updateTime := opt.updateTime
+	if !opt.forceFull && r.Pct(8) {
 		return nm // empty status: object just created, koordlet has not reported yet
 	}
 	if updateTime.IsZero() {
-		cands := []time.Time{now.Truncate(time.Second), now, now.Add(-time.Duration(r.Int63n(int64(2*interval) + 1))), now.Add(5 * time.Second), now.Add(-3 * time.Hour)}
+		cands := []time.Time{now.Truncate(time.Second), now, now.Add(-time.Duration(r.Int63n(int64(2*interval)+1))), now.Add(5 * time.Second), now.Add(-3 * time.Hour)}
 		for _, h := range hints {
 			if !h.ts.IsZero() {
 				// boundary "assigned within the report interval": updateTime-interval vs timestamp
